@@ -456,7 +456,10 @@ func (app *App) buildTree() *App {
 		tsMap := make(map[int][]*Route)
 		for _, route := range app.stack[m] {
 			treePathHash := 0
-			if len(route.routeParser.segs) > 0 && len(route.routeParser.segs[0].Const) >= maxDetectionPaths {
+			// a 3-byte constant whose trailing slash is optional (/a/:x?) also matches the
+			// 2-byte path /a, which is only looked up in the global tree
+			if len(route.routeParser.segs) > 0 && len(route.routeParser.segs[0].Const) >= maxDetectionPaths &&
+				!(len(route.routeParser.segs[0].Const) == maxDetectionPaths && route.routeParser.segs[0].HasOptionalSlash) {
 				treePathHash = int(route.routeParser.segs[0].Const[0])<<16 |
 					int(route.routeParser.segs[0].Const[1])<<8 |
 					int(route.routeParser.segs[0].Const[2])
